@@ -8,8 +8,14 @@ spec -> code : every state of C10_Algebra (all permutations up to a bound with e
 code -> spec : random larger permutations and argument values; every call of the real code is one
                event judged by Trace_C10 (result is a bijection of the documented length, value is
                the definition, law events with both sides computed by the real code).
+Hardening probes (same judge, Trace_C10): structured permutations of length 8-10 (monotone, layered, simple,
+               involutions, inflations of simples) with EVERY index / value and shift amounts far beyond the
+               length, long compose / sum chains, inflations with many / all-None / all-empty components given as
+               generators, map objects and keywords; and sessions in which ONE Perm object (or the same two or
+               three operands) answers many questions in a row, each at least twice, with other uses in between.
 The definitions themselves are cross-checked once per run by LibSanity_Algebra.
 """
+import inspect
 import json
 import math
 import os
@@ -52,6 +58,40 @@ def _comps(cs):
     return [None if c["none"] else Perm(c["c"]) for c in cs]
 
 
+class FormUnavailable(Exception):
+    """A keyword form of a public method does not exist on this tree: reported as drift, never judged."""
+
+
+def _kw(f, **kw):
+    try:
+        inspect.signature(f).bind(**kw)
+    except TypeError as ex:
+        raise FormUnavailable("%s: %s" % (getattr(f, "__name__", f), ex)) from ex
+    return f(**kw)
+
+
+# the objects of a session: a descriptor with a key "obj" (or "objs", parallel to "ps") is performed on ONE Perm object
+# per key, kept between calls, so that whatever an object caches while it is used is part of the history
+_SESSION = {}
+
+
+def _held(key, p):
+    o = _SESSION.get(key)
+    if o is None or list(o) != list(p):
+        o = _SESSION[key] = Perm(p)
+    return o
+
+
+def _subject(d):
+    return _held(d["obj"], d["p"]) if "obj" in d else Perm(d["p"])
+
+
+def _subjects(d):
+    if "objs" in d:
+        return [_held(k, x) for k, x in zip(d["objs"], d["ps"])]
+    return [Perm(x) for x in d["ps"]]
+
+
 def perform(d):
     """Run the call described by d on the real code; return d extended by the observed result."""
     e = dict(d)
@@ -59,7 +99,7 @@ def perform(d):
     form = d.get("form", "full")
     e["form"] = form
     if op == "Sum":
-        ps = [Perm(x) for x in d["ps"]]
+        ps = _subjects(d)
         meth = "direct_sum" if d["kind"] == "direct" else "skew_sum"
         if form == "operator":          # left-nested  ((a + b) + c)
             acc = ps[0]
@@ -69,7 +109,7 @@ def perform(d):
         else:
             e["res"] = _perm(getattr(ps[0], meth)(*ps[1:]))
     elif op == "Compose":
-        ps = [Perm(x) for x in d["ps"]]
+        ps = _subjects(d)
         if form == "operator":
             acc = ps[0]
             for x in ps[1:]:
@@ -81,10 +121,15 @@ def perform(d):
             e["res"] = _perm(ps[0].compose(*ps[1:]))
     elif op == "Inflate":
         cs = _comps(d["cs"])
-        arg = {"full": list, "list": list, "tuple": tuple, "iter": iter}[form](cs)
-        e["res"] = _perm(Perm(d["p"]).inflate(arg))
+        p = _subject(d)
+        if form == "keywords":
+            e["res"] = _perm(_kw(p.inflate, components=cs))
+        else:
+            arg = {"full": list, "list": list, "tuple": tuple, "iter": iter, "gen": lambda x: (c for c in x),
+                   "map": lambda x: map(lambda c: c, x)}[form](cs)
+            e["res"] = _perm(p.inflate(arg))
     elif op == "Insert":
-        p = Perm(d["p"])
+        p = _subject(d)
         if form == "noargs":
             r = p.insert()
         elif form == "index_only":
@@ -97,22 +142,23 @@ def perform(d):
             r = p.insert(d["i"], d["v"])
         e["res"] = _perm(r)
     elif op == "Remove":
-        p = Perm(d["p"])
-        e["res"] = _perm(p.remove() if form == "noargs" else p.remove(d["i"]))
+        p = _subject(d)
+        e["res"] = _perm(p.remove() if form == "noargs" else _kw(p.remove, index=d["i"]) if form == "keywords" else p.remove(d["i"]))
     elif op == "RemoveElement":
-        p = Perm(d["p"])
-        e["res"] = _perm(p.remove_element() if form == "noargs" else p.remove_element(d["v"]))
+        p = _subject(d)
+        e["res"] = _perm(p.remove_element() if form == "noargs" else _kw(p.remove_element, selected=d["v"]) if form == "keywords"
+                         else p.remove_element(d["v"]))
     elif op == "Shift":
-        f = getattr(Perm(d["p"]), d.get("fn") or SHIFT_FN[d["dir"]])
-        e["res"] = _perm(f() if form == "noargs" else f(d["t"]))
+        f = getattr(_subject(d), d.get("fn") or SHIFT_FN[d["dir"]])
+        e["res"] = _perm(f() if form == "noargs" else _kw(f, times=d["t"]) if form == "keywords" else f(d["t"]))
     elif op == "Decomp":
-        p = Perm(d["p"])
+        p = _subject(d)
         if d["kind"] == "sum":
             e["res"], e["flag"] = _perms(p.sum_decomposition()), bool(p.is_sum_decomposable())
         else:
             e["res"], e["flag"] = _perms(p.skew_decomposition()), bool(p.is_skew_decomposable())
     elif op == "Blocks":
-        p = Perm(d["p"])
+        p = _subject(d)
         e["res"] = [sorted(int(a) for a in b) for b in p.block_decomposition()]
         e["pats"] = sorted({tuple(_perm(x)) for x in p.block_decomposition_as_pattern()})
         e["pats"] = [list(x) for x in e["pats"]]
@@ -120,15 +166,25 @@ def perform(d):
         e["maxlen"], e["maxstart"] = int(mb[0]), int(mb[1])
         e["simple"], e["ssimple"] = bool(p.is_simple()), bool(p.is_strongly_simple())
     elif op == "Mono":
-        f = getattr(Perm(d["p"]), d.get("fn") or MONO_FN[d["kind"]])
-        got = list(f() if form == "noargs" else f(d["ones"]))
+        f = getattr(_subject(d), d.get("fn") or MONO_FN[d["kind"]])
+        got = list(f() if form == "noargs" else _kw(f, with_ones=d["ones"]) if form == "keywords" else f(d["ones"]))
         e["res"] = sorted([int(a), int(b)] for a, b in got)
     elif op == "Contract":
-        e["res"] = _perm(getattr(Perm(d["p"]), d.get("fn") or CONTRACT_FN[d["kind"]][0])())
+        e["res"] = _perm(getattr(_subject(d), d.get("fn") or CONTRACT_FN[d["kind"]][0])())
     elif op == "Shadow":
-        e["res"] = [list(x) for x in sorted({tuple(_perm(c)) for c in Perm(d["p"]).children()})]
+        e["res"] = [list(x) for x in sorted({tuple(_perm(c)) for c in _subject(d).children()})]
     elif op == "Covers":
-        e["res"] = [list(x) for x in sorted({tuple(_perm(c)) for c in Perm(d["p"]).coveredby()})]
+        e["res"] = [list(x) for x in sorted({tuple(_perm(c)) for c in _subject(d).coveredby()})]
+    elif op == "Touch":
+        # not an event: other uses of the session object between two judged calls (fills what it caches for searches)
+        p = _subject(d)
+        q = Perm(d["q"])
+        p.contains(q)
+        list(p.occurrences_in(q))
+        q.contains(p)
+        hash(p)
+        p.inverse()
+        e["skip"] = True
     elif op == "Law":
         _law(d, e)
     else:
@@ -592,11 +648,195 @@ def random_descriptors(rnd, count, maxlen):
     return out
 
 
+# ------------------------------------------------------------------------------------------------
+# hardening probes: structured longer inputs with every boundary argument, argument forms, and sessions
+# on one object.  These functions only choose inputs; every event is judged by Trace_C10.
+# ------------------------------------------------------------------------------------------------
+BIG = 500000003           # shift amounts far beyond the length (sums of two stay inside TLC's 32-bit integers)
+
+
+def special_perms(rnd, n):
+    """Permutations of length n with structure: monotone, layered, simple, involutions, inflations of a simple
+    permutation, extreme entries at the ends."""
+    out = [list(range(n)), list(range(n - 1, -1, -1))]
+    cuts = sorted(rnd.sample(range(1, n), min(3, n - 1))) if n >= 2 else []
+    layered, lo = [], 0
+    for c in cuts + [n]:
+        layered += list(range(c - 1, lo - 1, -1))
+        lo = c
+    out.append(layered)                                              # 1 (+) layered
+    out.append([n - 1 - v for v in layered])                         # co-layered
+    m = n // 2
+    par = [2 * i + 1 for i in range(m)] + [2 * i for i in range(m)]  # 2 4 6 .. 1 3 5 .. : simple for m >= 2
+    if n % 2:
+        par = par[:m] + [n - 1] + par[m:]
+    out.append(par)
+    inv = list(range(n))
+    idx = list(range(n))
+    rnd.shuffle(idx)
+    for a, b in zip(idx[0::2], idx[1::2][: n // 3]):
+        inv[a], inv[b] = b, a
+    out.append(inv)                                                  # an involution with fixed points
+    sizes = [1, 1, 1, 1]
+    for _ in range(n - 4):
+        sizes[rnd.randrange(4)] += 1
+    blocks = [rnd.choice([Perm.identity, Perm.monotone_decreasing])(k) for k in sizes]
+    out.append(list(Perm((1, 3, 0, 2)).inflate(blocks)))             # 2413[monotone blocks]
+    out.append(list(range(1, n)) + [0])                              # 2 3 .. n 1
+    out.append([n - 1] + list(range(n - 1)))                         # n 1 2 .. n-1
+    out.append(list(util.rand_perm(rnd, n)))
+    return [q for q in out if len(q) == n and sorted(q) == list(range(n))]
+
+
+def structured_descriptors(rnd, quick):
+    out = []
+    lengths = [8, 10] if quick else [7, 8, 9, 10]
+    for n in lengths:
+        cand = special_perms(rnd, n)
+        rnd.shuffle(cand)
+        for p in cand[:4 if quick else len(cand)]:
+            # every index / every value, boundary values, keyword forms
+            for i in range(n + 1):
+                for v in sorted({0, n, rnd.randint(0, n)}):
+                    out.append({"op": "Insert", "p": p, "i": i, "v": v, "form": "keywords" if (i + v) % 3 == 0 else "full"})
+                out.append({"op": "Law", "name": "RemoveUndoesInsert", "p": p, "i": i, "v": rnd.randint(0, n)})
+            for i in range(n):
+                out.append({"op": "Remove", "p": p, "i": i, "form": "keywords" if i % 3 == 0 else "full"})
+                out.append({"op": "RemoveElement", "p": p, "v": i, "form": "keywords" if i % 3 == 1 else "full"})
+                out.append({"op": "Law", "name": "InsertUndoesRemove", "p": p, "i": i})
+            for dr in sorted(SHIFT_FN):
+                for t in (0, n, -n, n * 1000003, -n * 1000003, BIG, -BIG, BIG + rnd.randint(1, n), -BIG - rnd.randint(1, n), n - 1, 1 - n):
+                    out.append({"op": "Shift", "dir": dr, "p": p, "t": t, "form": "keywords" if t % 4 == 0 else "full"})
+                out.append({"op": "Law", "name": "ShiftsCompose", "dir": dr, "p": p, "s": BIG + rnd.randint(0, n), "t": -BIG + rnd.randint(0, n)})
+                out.append({"op": "Law", "name": "ShiftsCompose", "dir": dr, "p": p, "s": BIG, "t": BIG + rnd.randint(0, n)})
+            out.append({"op": "Law", "name": "ShiftInverse", "p": p, "t": BIG + 1})
+            out.append({"op": "Blocks", "p": p})
+            for kind in ("sum", "skew"):
+                out.append({"op": "Decomp", "kind": kind, "p": p})
+                out.append({"op": "Law", "name": "SumOfDecomposition", "kind": kind, "p": p})
+            for kind in ("inc", "dec", "both"):
+                out.append({"op": "Mono", "p": p, "kind": kind, "ones": True, "form": "keywords"})
+                out.append({"op": "Mono", "p": p, "kind": kind, "ones": False, "form": "full"})
+                for fn in CONTRACT_FN[kind]:
+                    out.append({"op": "Contract", "p": p, "kind": kind, "fn": fn})
+            if n <= 9:
+                out.append({"op": "Shadow", "p": p})
+            if n <= 8:
+                out.append({"op": "Covers", "p": p})
+    # block decompositions of inflations of simple permutations (the intervals are exactly inside / made of components)
+    simples = [(1, 3, 0, 2), (2, 0, 3, 1), (1, 4, 2, 0, 3), (2, 4, 0, 3, 1), (1, 3, 5, 0, 2, 4), (2, 5, 3, 0, 4, 1)]
+    for _ in range(10 if quick else 60):
+        sp = Perm(rnd.choice(simples))
+        comps = [Perm(util.rand_perm(rnd, rnd.choice([1, 1, 2, 3]))) for _ in sp]
+        p = list(sp.inflate(comps))
+        if len(p) <= 11:
+            out.append({"op": "Blocks", "p": p})
+            out.append({"op": "Inflate", "p": list(sp), "cs": [{"none": False, "c": list(c)} for c in comps],
+                        "form": rnd.choice(["gen", "map", "keywords", "tuple"])})
+    # inflations with many components: all None, all empty, one long component, mixed
+    for _ in range(12 if quick else 80):
+        q = list(util.rand_perm(rnd, rnd.randint(5, 7)))
+        style = rnd.randrange(5)
+        cs = []
+        for j in range(len(q)):
+            if style == 0:
+                cs.append({"none": True, "c": []})
+            elif style == 1:
+                cs.append({"none": False, "c": []})
+            elif style == 2:
+                cs.append({"none": False, "c": list(util.rand_perm(rnd, 6 if j == len(q) // 2 else 0))})
+            else:
+                x = rnd.random()
+                cs.append({"none": True, "c": []} if x < 0.25 else {"none": False, "c": list(util.rand_perm(rnd, rnd.randint(0, 2)))})
+        out.append({"op": "Inflate", "p": q, "cs": cs, "form": rnd.choice(["gen", "map", "keywords", "iter", "list"])})
+    # long chains
+    for _ in range(10 if quick else 60):
+        m = rnd.choice([7, 8, 9, 10])
+        ps = [list(util.rand_perm(rnd, m)) for _ in range(rnd.randint(4, 6))]
+        out.append({"op": "Compose", "ps": ps, "form": rnd.choice(["full", "operator", "multiply"])})
+        parts = [list(util.rand_perm(rnd, rnd.randint(0, 3))) for _ in range(rnd.randint(4, 6))]
+        kind = rnd.choice(["direct", "skew"])
+        out.append({"op": "Sum", "kind": kind, "ps": parts, "form": rnd.choice(["full", "operator"])})
+        out.append({"op": "Law", "name": "SumIsInflation", "kind": kind, "p": parts[0], "ps": parts})
+    return out
+
+
+UNARY_SESSION_OPS = ["Insert", "Remove", "RemoveElement", "Shift", "Decomp", "Blocks", "Mono", "Contract", "Shadow", "Covers", "Inflate", "Touch"]
+
+
+def session_descriptors(rnd, quick):
+    """The same Perm object in many operations in a row (every question asked at least twice, other uses of the
+    object in between), and the same two or three objects as operands of sums and products in both orders."""
+    out = []
+    for sidx in range(14 if quick else 60):
+        n = rnd.choice([5, 6, 7, 8])
+        p = rnd.choice(special_perms(rnd, n))
+        key = "s%d" % sidx
+        # every kind of question once on the one object, in random order, before the random part
+        asked = [{"op": "Decomp", "p": p, "obj": key, "kind": "sum"}, {"op": "Decomp", "p": p, "obj": key, "kind": "skew"},
+                 {"op": "Blocks", "p": p, "obj": key}, {"op": "Shadow", "p": p, "obj": key}]
+        asked += [{"op": "Mono", "p": p, "obj": key, "kind": k, "ones": k != "inc"} for k in ("inc", "dec", "both")]
+        asked += [{"op": "Contract", "p": p, "obj": key, "kind": k} for k in ("inc", "dec", "both")]
+        asked += [{"op": "Shift", "p": p, "obj": key, "dir": dr, "t": rnd.randint(1, n - 1)} for dr in sorted(SHIFT_FN)]
+        rnd.shuffle(asked)
+        out.extend(dict(d) for d in asked)
+        for step in range(24 if quick else 40):
+            if asked and rnd.random() < 0.35:
+                d = dict(rnd.choice(asked))                           # the same question again
+            else:
+                op = rnd.choice(UNARY_SESSION_OPS)
+                d = {"op": op, "p": p, "obj": key}
+                if op == "Insert":
+                    d.update(i=rnd.randint(0, n), v=rnd.randint(0, n))
+                elif op == "Remove":
+                    d.update(i=rnd.randrange(n))
+                elif op == "RemoveElement":
+                    d.update(v=rnd.randrange(n))
+                elif op == "Shift":
+                    d.update(dir=rnd.choice(sorted(SHIFT_FN)), t=rnd.randint(-2 * n, 2 * n))
+                elif op == "Decomp":
+                    d.update(kind=rnd.choice(["sum", "skew"]))
+                elif op in ("Mono", "Contract"):
+                    d.update(kind=rnd.choice(["inc", "dec", "both"]))
+                    if op == "Mono":
+                        d.update(ones=rnd.random() < 0.5)
+                elif op == "Inflate":
+                    d.update(cs=[{"none": rnd.random() < 0.3, "c": []} if rnd.random() < 0.5 else
+                                 {"none": False, "c": list(util.rand_perm(rnd, rnd.randint(0, 2)))} for _ in p], form="gen")
+                elif op == "Touch":
+                    d.update(q=list(util.rand_perm(rnd, rnd.randint(2, 4))))
+                elif op == "Covers" and n > 7:
+                    d["op"] = "Shadow"
+                if d["op"] != "Touch":
+                    asked.append(d)
+            out.append(d)
+    for sidx in range(4 if quick else 30):
+        m = rnd.choice([5, 6, 7])
+        objs = ["b%d_%d" % (sidx, j) for j in range(3)]
+        ps = [list(util.rand_perm(rnd, m)) for _ in objs]
+        for step in range(10):
+            k = rnd.choice([1, 2, 3, 3])
+            order = [rnd.randrange(3) for _ in range(k)]              # repetitions allowed: p * p, p + q + p
+            sel = {"ps": [ps[j] for j in order], "objs": [objs[j] for j in order]}
+            kind = rnd.choice(["compose", "direct", "skew"])
+            if kind == "compose":
+                out.append(dict(sel, op="Compose", form=rnd.choice(["full", "operator", "multiply"])))
+            else:
+                out.append(dict(sel, op="Sum", kind=kind, form=rnd.choice(["full", "operator"])))
+            if step % 4 == 3:
+                out.append({"op": "Touch", "p": ps[order[0]], "obj": objs[order[0]], "q": [1, 0, 2]})
+    return out
+
+
 def record_events(ctx, descs):
     events = []
     for d in descs:
         try:
-            events.append(perform(d))
+            ev = perform(d)
+            if not ev.get("skip"):
+                events.append(ev)
+        except FormUnavailable as ex:
+            ctx.drift("keyword form not available, not judged: %s" % ex)
         except BadResult as ex:
             ctx.violation({"kind": "trace-call", "ev": d}, "ReturnsPermutation", "a Perm", str(ex))
         except tlc.MachineryFailure:
@@ -701,7 +941,10 @@ def run(ctx):
     # ---- code -> spec ---------------------------------------------------------------------------------
     rnd = util.rng(ctx, 10)
     descs = random_descriptors(rnd, 450 if quick else 5000, 9 if quick else 10)
-    events = record_events(ctx, descs)
+    rnd_h = util.rng(ctx, 1010)
+    hard = structured_descriptors(rnd_h, quick) + session_descriptors(rnd_h, quick)
+    ctx.note("hardening_descriptors", {"structured_and_sessions": len(hard)})
+    events = record_events(ctx, descs + hard)
     chunk = 300 if quick else 700
     parts = [events[i:i + chunk] for i in range(0, len(events), chunk)]
     verdicts = validate_many(ctx, parts)
@@ -728,7 +971,7 @@ def replay(ctx, path):
     rec = json.load(open(path))
     case = rec["case"]
     d = case.get("ev")
-    if not d or d.get("op") == "Inverse" or d.get("form") == "call":
+    if not d or d.get("op") == "Inverse" or d.get("form") == "call" or "obj" in d or "objs" in d:
         raise tlc.MachineryFailure("this case is replayed by re-running the check (no single-call descriptor)")
     try:
         ev = perform(d)
